@@ -112,11 +112,10 @@ Section Ops.
     unfold op_findings in Hfind. rewrite Ebi, Epi, Ebo, Epo' in Hfind.
     destruct (clause_list _) eqn:Ecl in Hfind; [|discriminate]. clear Hfind.
     apply clause_list_nil in Ecl. cbn [forallb snd] in Ecl.
-    apply andb_true_iff in Ecl as [C1 Ecl]. apply andb_true_iff in Ecl as [C2 Ecl].
+    apply andb_true_iff in Ecl as [C2 Ecl].
     apply andb_true_iff in Ecl as [C3 Ecl].
     apply andb_true_iff in Ecl as [C5 Ecl]. apply andb_true_iff in Ecl as [C6 Ecl].
     apply andb_true_iff in Ecl as [C7 _].
-    apply andb_true_iff in C1 as [C1i C1o].
     set (style := effective_style b bo) in *.
     set (name := pt_name pt ++ [95] ++ bo_name bo).
     (* both sides *)
@@ -125,7 +124,7 @@ Section Ops.
               forallb (fun p => negb (element_part p)) (selected_of d bm ptm) = true).
     { intros bm ptm Hs H. rewrite Hs in H. exact H. }
     destruct (side_correct te d t Ht Htn Hmsgs Hsh po name style m_input (Some (bo_name bo)) (bo_name bo) false bi pi
-                Hoki C1i) as [msi [ti [itemi [Emi [Eei [Hmi [Hqi [Htagi [Hmsi Hdeci]]]]]]]]].
+                Hoki) as [msi [ti [itemi [Emi [Eei [Hmi [Hqi [Htagi [Hmsi Hdeci]]]]]]]]].
     { discriminate. }
     { intros Hs. destruct (str_eqb style s_rpc); [discriminate|]. cbn in C5. apply andb_true_iff in C5 as [C5 _]. exact C5. }
     { intros Hs. rewrite Hs in C6, C7. cbn [negb orb] in C6, C7.
@@ -133,7 +132,7 @@ Section Ops.
       apply negb_true_iff in C7. split; [exact C6|]. split; [destruct (body_parts_of bi); [discriminate|reflexivity]|].
       intros; reflexivity. }
     destruct (side_correct te d t Ht Htn Hmsgs Hsh po name style m_output None (bo_name bo ++ s_Response) true bo' po'
-                Hoko C1o) as [mso [to [itemo [Emo [Eeo [Hmo [Hqo [Htago [Hmso Hdeco]]]]]]]]].
+                Hoko) as [mso [to [itemo [Emo [Eeo [Hmo [Hqo [Htago [Hmso Hdeco]]]]]]]]].
     { intros _. exact Hfaults. }
     { intros Hs. destruct (str_eqb style s_rpc); [discriminate|]. cbn in C5. apply andb_true_iff in C5 as [_ C5]. exact C5. }
     { intros Hs. rewrite Hs in C6, C7, C2. cbn [negb orb] in C6, C7, C2.
